@@ -181,6 +181,15 @@ def runSched (conv : P × B → R × List (O × T)) (σ : List Ev) (tasks : List
 def sequential (conv : P × B → R × List (O × T)) (tasks : List (P × B)) : State P R O T :=
   tasks.foldl (fun s t => ⟨aset s.results t.1 (conv t).1, asetAll s.tree (conv t).2⟩) State.init
 
+/-- The sequential loop with the conversion OPTIONS (channel set, frame slice, ...) made explicit as a value that each
+file conversion may hand on changed: `step opt file = ((result, outputs), opt')`.  This is what the Python loop does when
+it passes ONE mutable `channels` set object to every `single_*_to_las` call. -/
+def sequentialThreaded {Opt : Type} (step : Opt → P × B → (R × List (O × T)) × Opt) (opt : Opt)
+    (tasks : List (P × B)) : State P R O T × Opt :=
+  tasks.foldl (fun (so : State P R O T × Opt) t =>
+    let r := step so.2 t
+    (⟨aset so.1.results t.1 r.1.1, asetAll so.1.tree r.1.2⟩, r.2)) (State.init, opt)
+
 /-- converting one file on its own into an empty output directory -/
 def alone (conv : P × B → R × List (O × T)) (t : P × B) : State P R O T := sequential conv [t]
 end Batch
